@@ -9,52 +9,54 @@ open Bufr.Spec
 
 /-- `s` has recorded as many values as labels, and its items extend those of `s0` -/
 def G (V : St → List Val) (s0 s : St) : Prop :=
-  (V s).length = s.descs.length ∧ ∃ ext, items V s = items V s0 ++ ext
+  (V s).length = s.descs.length ∧ (∃ ext, items V s = items V s0 ++ ext) ∧ s.vals.length = s0.vals.length
 
 theorem G.refl (V : St → List Val) (s0 : St) (h : (V s0).length = s0.descs.length) : G V s0 s0 :=
-  ⟨h, [], by simp⟩
+  ⟨h, ⟨[], by simp⟩, rfl⟩
 
-theorem G.congr {V : St → List Val} {s0 s s' : St} (h : G V s0 s) (hd : s'.descs = s.descs) (hv : V s' = V s) :
-    G V s0 s' :=
-  ⟨by rw [hd, hv]; exact h.1, by rw [items_congr V s s' hd hv]; exact h.2⟩
+theorem G.congr {V : St → List Val} {s0 s s' : St} (h : G V s0 s) (hd : s'.descs = s.descs) (hv : V s' = V s)
+    (hl : s'.vals.length = s.vals.length) : G V s0 s' :=
+  ⟨by rw [hd, hv]; exact h.1, by rw [items_congr V s s' hd hv]; exact h.2.1, by rw [hl]; exact h.2.2⟩
 
 theorem G.push {V : St → List Val} {s0 s s' : St} (h : G V s0 s) (dd : DDesc) (v : Val)
-    (hd : s'.descs = dd :: s.descs) (hv : V s' = V s ++ [v]) : G V s0 s' := by
-  obtain ⟨h1, ext, h2⟩ := h
-  refine ⟨by rw [hd, hv]; simp [h1], ext ++ [(dd, v)], ?_⟩
+    (hd : s'.descs = dd :: s.descs) (hv : V s' = V s ++ [v]) (hl : s'.vals.length = s.vals.length) : G V s0 s' := by
+  obtain ⟨h1, ⟨ext, h2⟩, h3⟩ := h
+  refine ⟨by rw [hd, hv]; simp [h1], ⟨ext ++ [(dd, v)], ?_⟩, by rw [hl]; exact h3⟩
   rw [items_snoc V s s' dd v h1 hd hv, h2, List.append_assoc]
 
 theorem G.trans {V : St → List Val} {s0 s1 s2 : St} (h1 : G V s0 s1) (h2 : G V s1 s2) : G V s0 s2 := by
-  obtain ⟨_, e1, h1⟩ := h1
-  obtain ⟨l2, e2, h2⟩ := h2
-  exact ⟨l2, e1 ++ e2, by rw [h2, h1, List.append_assoc]⟩
+  obtain ⟨_, ⟨e1, h1⟩, v1⟩ := h1
+  obtain ⟨l2, ⟨e2, h2⟩, v2⟩ := h2
+  exact ⟨l2, ⟨e1 ++ e2, by rw [h2, h1, List.append_assoc]⟩, by rw [v2, v1]⟩
 
 section steps
 variable {P : Prims} {V : St → List Val} (hR : Rec P V) (s0 : St)
 include hR
 
-theorem growG_same {f : St → CM St} (h : ∀ s s', f s = .ok s' → ∃ dd, Same s s' dd ∧ ∃ v, V s' = V s ++ [v]) :
+theorem growG_same {f : St → CM St}
+    (h : ∀ s s', f s = .ok s' → ∃ dd, Same s s' dd ∧ (∃ v, V s' = V s ++ [v]) ∧ s'.vals.length = s.vals.length) :
     Pres (G V s0) f := by
   intro s s' e hi
-  obtain ⟨dd, hs, v, hv⟩ := h s s' e
-  exact hi.push dd v hs.1 hv
+  obtain ⟨dd, hs, ⟨v, hv⟩, hl⟩ := h s s' e
+  exact hi.push dd v hs.1 hv hl
 
 theorem growG_setRegs (f : St → Regs → Regs) : Pres (G V s0) (fun s => .ok (s.setRegs (f s))) := by
   intro s s' e hi
   cases e
-  exact hi.congr rfl (hR.setRegs _ _)
+  exact hi.congr rfl (hR.setRegs _ _) rfl
 
 theorem growG_numeric (dd : DDesc) (n sc r : Int) : Pres (G V s0) (P.numeric dd n sc r) :=
-  growG_same hR s0 (fun s s' h => ⟨dd, hR.quiet.numeric _ _ _ _ _ _ h, hR.numeric _ _ _ _ _ _ h⟩)
+  growG_same hR s0 (fun s s' h => ⟨dd, hR.quiet.numeric _ _ _ _ _ _ h, hR.numeric _ _ _ _ _ _ h, hR.numericL _ _ _ _ _ _ h⟩)
 theorem growG_string (dd : DDesc) (n : Nat) : Pres (G V s0) (P.string dd n) :=
-  growG_same hR s0 (fun s s' h => ⟨dd, hR.quiet.string _ _ _ _ h, hR.string _ _ _ _ h⟩)
+  growG_same hR s0 (fun s s' h => ⟨dd, hR.quiet.string _ _ _ _ h, hR.string _ _ _ _ h, hR.stringL _ _ _ _ h⟩)
 theorem growG_codeflag (dd : DDesc) (n : Nat) : Pres (G V s0) (P.codeflag dd n) :=
-  growG_same hR s0 (fun s s' h => ⟨dd, hR.quiet.codeflag _ _ _ _ h, hR.codeflag _ _ _ _ h⟩)
+  growG_same hR s0 (fun s s' h => ⟨dd, hR.quiet.codeflag _ _ _ _ h, hR.codeflag _ _ _ _ h, hR.codeflagL _ _ _ _ h⟩)
 theorem growG_constant (dd : DDesc) (c : Int) : Pres (G V s0) (P.constant dd c) :=
-  growG_same hR s0 (fun s s' h => ⟨dd, hR.quiet.constant _ _ _ _ h, hR.constant _ _ _ _ h⟩)
+  growG_same hR s0 (fun s s' h => ⟨dd, hR.quiet.constant _ _ _ _ h, hR.constant _ _ _ _ h, hR.constantL _ _ _ _ h⟩)
 
 /-- `stQa` only touches registers and links -/
-theorem stQa_shape (e : Elem) (s s2 : St) (h : stQa e s = .ok s2) : s2.descs = s.descs ∧ V s2 = V s := by
+theorem stQa_shape (e : Elem) (s s2 : St) (h : stQa e s = .ok s2) :
+    s2.descs = s.descs ∧ V s2 = V s ∧ s2.vals = s.vals := by
   unfold stQa at h
   by_cases hx : xOf e.id = 33
   · rw [if_pos hx] at h
@@ -63,7 +65,7 @@ theorem stQa_shape (e : Elem) (s s2 : St) (h : stQa e s = .ok s2) : s2.descs = s
       simp only [hq, reduceCtorEq, if_false] at h
       simp only [hq, reduceCtorEq, if_false, pure, Except.pure] at h
       injection h with h; subst h
-      exact ⟨rfl, rfl⟩
+      exact ⟨rfl, rfl, rfl⟩
     | waiting =>
       simp only [hq, St.setRegs, if_true, bind, Except.bind, nextBitmapped] at h
       cases hb : s.regs.bmIter with
@@ -78,7 +80,7 @@ theorem stQa_shape (e : Elem) (s s2 : St) (h : stQa e s = .ok s2) : s2.descs = s
           have : V (addLink ((s.setRegs fun r => { r with qa := .processing }).setRegs
               fun r => { r with bmIter := some rest }) owner) = V s := by
             rw [hR.addLink, hR.setRegs, hR.setRegs]
-          exact ⟨rfl, this⟩
+          exact ⟨rfl, this, rfl⟩
     | processing =>
       simp only [hq, reduceCtorEq, if_false] at h
       simp only [hq, if_true, St.setRegs, bind, Except.bind, nextBitmapped] at h
@@ -94,18 +96,18 @@ theorem stQa_shape (e : Elem) (s s2 : St) (h : stQa e s = .ok s2) : s2.descs = s
           have : V (addLink ((s.setRegs fun r => { r with qa := .processing }).setRegs
               fun r => { r with bmIter := some rest }) owner) = V s := by
             rw [hR.addLink, hR.setRegs, hR.setRegs]
-          exact ⟨rfl, this⟩
+          exact ⟨rfl, this, rfl⟩
   · rw [if_neg hx] at h
     simp only [pure, Except.pure] at h
     injection h with h; subst h
     split
-    · exact ⟨rfl, hR.setRegs _ _⟩
-    · exact ⟨rfl, rfl⟩
+    · exact ⟨rfl, hR.setRegs _ _, rfl⟩
+    · exact ⟨rfl, rfl, rfl⟩
 
 theorem growG_stQa (e : Elem) : Pres (G V s0) (stQa e) := by
   intro s s2 h hi
-  obtain ⟨a, b⟩ := stQa_shape hR e s s2 h
-  exact hi.congr a b
+  obtain ⟨a, b, c⟩ := stQa_shape hR e s s2 h
+  exact hi.congr a b (by rw [c])
 
 theorem growG_stValue (dd : DDesc) (e : Elem) : Pres (G V s0) (stValue P dd e) := by
   intro s s' h hi
@@ -150,7 +152,7 @@ theorem growG_bitmappedDescriptor (op : Nat) : Pres (G V s0) (bitmappedDescripto
     | cons x rest =>
       obtain ⟨owner, be⟩ := x
       simp only [bitmappedDescriptor, nextBitmapped, hb, bind, Except.bind] at h
-      exact growG_elementDescriptor hR s0 _ _ _ _ h (hi.congr rfl (by rw [hR.addLink, hR.setRegs]))
+      exact growG_elementDescriptor hR s0 _ _ _ _ h (hi.congr rfl (by rw [hR.addLink, hR.setRegs]) rfl)
 
 theorem growG_bitmapDefinition (id : Nat) : Pres (G V s0) (bitmapDefinition P id) := by
   intro s s' h hi
@@ -159,16 +161,16 @@ theorem growG_bitmapDefinition (id : Nat) : Pres (G V s0) (bitmapDefinition P id
   | na => simp only [hb] at h; cases h; exact hi
   | indicator =>
     simp only [hb] at h
-    split at h <;> (cases h; exact hi.congr rfl (hR.setRegs _ _))
+    split at h <;> (cases h; exact hi.congr rfl (hR.setRegs _ _) rfl)
   | waiting =>
     simp only [hb] at h
     split at h
-    · cases h; exact hi.congr rfl (hR.setRegs _ _)
+    · cases h; exact hi.congr rfl (hR.setRegs _ _) rfl
     · cases h; exact hi
   | counting =>
     simp only [hb] at h
     split at h
-    · cases h; exact hi.congr rfl (hR.setRegs _ _)
+    · cases h; exact hi.congr rfl (hR.setRegs _ _) rfl
     · simp only [bind, Except.bind, pure, Except.pure] at h
       cases hv : P.lastValues s.regs.n031031 s with
       | error err => simp [hv] at h
@@ -183,7 +185,7 @@ theorem growG_bitmapDefinition (id : Nat) : Pres (G V s0) (bitmapDefinition P id
           split at hbb
           · cases hbb
           · cases hbb
-            exact hi.congr rfl (by rw [hR.setRegs, hR.setRegs])
+            exact hi.congr rfl (by rw [hR.setRegs, hR.setRegs]) rfl
 
 theorem growG_operatorDescriptor (id : Nat) : Pres (G V s0) (operatorDescriptor P id) := by
   show Pres (G V s0) (fun s => operatorDescriptor P id s)
@@ -201,10 +203,10 @@ theorem growG_operatorDescriptor (id : Nat) : Pres (G V s0) (operatorDescriptor 
     split at h
     · cases h
     · next s2 hk =>
-      have i2 := growG_constant hR s0 _ _ _ s2 hk (hi.congr rfl (hR.setRegs _ _))
+      have i2 := growG_constant hR s0 _ _ _ s2 hk (hi.congr rfl (hR.setRegs _ _) rfl)
       injection h with h; subst h
       split
-      · exact i2.congr rfl (hR.setRegs _ _)
+      · exact i2.congr rfl (hR.setRegs _ _) rfl
       · exact i2
   · -- marker operators
     exact Pres.congr (fun s => Bufr.bind_eq_kl (fun s => if s.regs.assocStack ≠ [] then associatedField P id s else .ok s)
@@ -216,14 +218,14 @@ theorem growG_operatorDescriptor (id : Nat) : Pres (G V s0) (operatorDescriptor 
     | none => simp [hb] at h
     | some l =>
       simp only [hb] at h
-      exact growG_constant hR s0 _ _ _ s' h (hi.congr rfl (hR.setRegs _ _))
+      exact growG_constant hR s0 _ _ _ s' h (hi.congr rfl (hR.setRegs _ _) rfl)
 
 theorem growG_dnpStep : Pres (G V s0) (fun s => .ok (dnpStep s)) := by
   intro s s' h hi
   cases h
   unfold dnpStep
   split
-  · exact hi.congr rfl (hR.setRegs _ _)
+  · exact hi.congr rfl (hR.setRegs _ _) rfl
   · exact hi
 
 theorem growG_walkRest (d : Desc) (hd : Pres (G V s0) (dispatch P d)) : Pres (G V s0) (walkRest P d) := by
@@ -236,7 +238,7 @@ theorem growG_walkRest (d : Desc) (hd : Pres (G V s0) (dispatch P d)) : Pres (G 
     · simp [hk] at h
     · simp only [hk, if_false] at h
       obtain ⟨a, v, b⟩ := hR.newRefval _ _ _ _ h
-      exact hi.push _ v a b
+      exact hi.push _ v a b (hR.newRefvalL _ _ _ _ h)
   | none =>
     simp only [hsel] at h
     by_cases hn : s.regs.nbitsSkipped = 0
@@ -250,7 +252,7 @@ theorem growG_walkRest (d : Desc) (hd : Pres (G V s0) (dispatch P d)) : Pres (G 
       | ok s1 =>
         simp only [hc] at h
         cases h
-        exact (growG_codeflag hR s0 _ _ s s1 hc hi).congr rfl (hR.setRegs _ _)
+        exact (growG_codeflag hR s0 _ _ s s1 hc hi).congr rfl (hR.setRegs _ _) rfl
 
 theorem growG_walk1_of (d : Desc) (hd : Pres (G V s0) (dispatch P d)) : Pres (G V s0) (walk1 P d) := by
   refine Pres.congr (fr_walk1_eq P d) ?_
